@@ -5,8 +5,8 @@ EXTENDS Integers, Sequences, FiniteSets, TLC, Json, Bitwise
 GFX == 0   MAPB == 8192   GFF == 12288   MUS == 12544   SFX == 12800   TOP == 17152
 CONSTANTS BaseMul, BaseAdd     \* prior contents: an arbitrary but fixed pattern per run
 Base(a) == (a * BaseMul + (a \div 64) * 13 + BaseAdd) % 256
-VARIABLES ov, step, last, sid
-vars == <<ov, step, last, sid>>
+VARIABLES ov, step, last, sid, first
+vars == <<ov, step, last, sid, first>>
 Rd(f, a) == IF a \in DOMAIN f THEN f[a] ELSE Base(a)
 Wr(f, a, v) == [x \in (DOMAIN f) \cup {a} |-> IF x = a THEN v ELSE f[x]]
 \* ---------------- gfx ----------------
@@ -75,7 +75,7 @@ MusPropV(f, id) == << Rd(f, MUS + id * 4) \div 128, Rd(f, MUS + id * 4 + 1) \div
 SetBit7(f, a, v) == IF v < 0 THEN f ELSE Wr(f, a, (Rd(f, a) % 128) + v * 128)
 SetMusPropF(f, id, b, e, s) == SetBit7(SetBit7(SetBit7(f, MUS + id * 4, b), MUS + id * 4 + 1, e), MUS + id * 4 + 2, s)
 \* ---------------- operations (argument domains focus on the edges) ----------------
-Ids == {0, 15, 16, 127, 239, 240, 255}
+Ids == {0, 15, 16, 127, 128, 239, 240, 255}
 Offs == {0, 1, 7, 8, 9}
 Rows == { << <<1,2,3>> >>, << <<5>>, <<16,6>>, <<7,16,8,9,10,11,12,13,14>> >>,
           << <<15,15,15,15,15,15,15,15,15>>, <<>>, <<3>> >> , [r \in 1..9 |-> <<4, 16>>] }
@@ -84,7 +84,7 @@ Rects == { << <<1,2>> , <<3>> >>, << <<200,201,202>> >>, [r \in 1..3 |-> <<9>>] 
 OpSet ==
   {[n |-> "set_sprite", id |-> id, rows |-> rows, xo |-> xo, yo |-> yo] : id \in Ids, rows \in Rows, xo \in Offs, yo \in Offs} \cup
   {[n |-> "get_sprite", id |-> id, tw |-> tw, th |-> th] : id \in Ids, tw \in {1, 2}, th \in {1, 2}} \cup
-  {[n |-> "set_cell", x |-> x, y |-> y, v |-> v] : x \in {0, 1, 126, 127}, y \in {0, 31, 32, 62, 63}, v \in {0, 1, 255}} \cup
+  {[n |-> "set_cell", x |-> x, y |-> y, v |-> v] : x \in {0, 1, 3, 126, 127}, y \in {0, 31, 32, 62, 63}, v \in {0, 1, 255}} \cup
   {[n |-> "get_cell", x |-> x, y |-> y] : x \in {0, 127}, y \in {0, 31, 32, 63}} \cup
   {[n |-> "set_rect", rect |-> rect, x |-> x, y |-> y] : rect \in Rects, x \in {0, 125, 126, 127}, y \in {0, 30, 31, 61, 62, 63}} \cup
   {[n |-> "get_rect", x |-> x, y |-> y, w |-> w, h |-> h] : x \in {0, 126}, y \in {30, 61}, w \in {1, 3}, h \in {1, 3}} \cup
@@ -121,18 +121,28 @@ Do(f, op) ==
     [] op.n = "get_channel" -> R(f, GetChannelV(f, op.id, op.ch))
     [] op.n = "music_set_properties" -> R(SetMusPropF(f, op.id, op.b, op.e, op.s), <<>>)
     [] op.n = "music_get_properties" -> R(f, MusPropV(f, op.id))
-CONSTANTS MaxSteps, NSeq
-\* one random operation per step (RandomElement: exactly one successor, so a run of the model
-\* checker prints NSeq histories of MaxSteps operations each)
+CONSTANTS MaxSteps, NSeq, Mode
+Kinds == {o.n : o \in OpSet}
+GetterOps == {o \in OpSet : o.n \in {"get_sprite", "get_cell", "get_rect", "get_flags", "get_note", "get_rect_pixels", "sfx_get_properties", "get_channel", "music_get_properties"}}
+\* Mode "random": one random operation per step, the KIND drawn first (so getters are as frequent as the
+\*   many-argument setters), then its arguments (RandomElement: exactly one successor, so a run prints
+\*   NSeq histories of MaxSteps operations each).
+\* Mode "rmr": read - modify - read: a random getter, a random operation, THE SAME getter again, then
+\*   random operations (a value remembered from the first read must not survive the modification).
 Next == /\ step < MaxSteps
-        /\ \E op \in {RandomElement(OpSet)} : \E r \in {Do(ov, op)} :      \* (bound once: LET would re-draw)
+        /\ \E k \in {RandomElement(Kinds)} :          \* (bound by \E: a LET would re-draw at every use)
+           \E op \in {IF Mode = "rmr" /\ step = 0 THEN RandomElement(GetterOps)
+                        ELSE IF Mode = "rmr" /\ step = 2 THEN first
+                        ELSE RandomElement({o \in OpSet : o.n = k})} :
+           \E r \in {Do(ov, op)} :
              /\ ov' = r.f /\ step' = step + 1 /\ sid' = sid
+             /\ first' = (IF step = 0 THEN op ELSE first)
              /\ last' = [op |-> op, ret |-> r.ret, ov |-> [a \in DOMAIN r.f |-> r.f[a]]]
-Init == ov = <<>> /\ step = 0 /\ last = <<>> /\ sid \in 1..NSeq
+Init == ov = <<>> /\ step = 0 /\ last = <<>> /\ sid \in 1..NSeq /\ first = <<>>
 Spec == Init /\ [][Next]_vars
 \* ---- the model's own laws, checked exhaustively over all operations for histories of length <= MaxSteps ----
 MCNext == step < MaxSteps /\ \E op \in OpSet : \E r \in {Do(ov, op)} :
-             /\ ov' = r.f /\ step' = step + 1 /\ sid' = sid
+             /\ ov' = r.f /\ step' = step + 1 /\ sid' = sid /\ first' = first
              /\ last' = [op |-> op, ret |-> r.ret, ov |-> ov]          \* ov = memory BEFORE the op
 MCSpec == Init /\ [][MCNext]_vars
 Getters == {"get_sprite", "get_cell", "get_rect", "get_flags", "get_note", "get_rect_pixels", "sfx_get_properties", "get_channel", "music_get_properties"}
